@@ -105,6 +105,7 @@ func c08Case(c *core.Ctx) *core.Result {
 	tag := func() string { serial++; return fmt.Sprintf("⟦c%d-%d⟧%s", c.Case, serial, gen.SafeString(r)) }
 	var log []string
 	kinds := map[string]bool{}
+	sect := &c08Sect{hdr: map[string]bool{}, ftr: map[string]bool{}}
 	nOps := r.Range(5, tierN(c.Tier, 60, 200))
 	fail := func(key, format string, a ...interface{}) {
 		res.Add(key, fmt.Sprintf(format, a...), "ops: "+strings.Join(tail(log, 30), " "))
@@ -225,19 +226,41 @@ func c08Case(c *core.Ctx) *core.Result {
 			switch r.Intn(8) {
 			case 0:
 				op = "SetPageMargins"
-				cg = core.Catch(func() { d.SetPageMargins(20, 20, 20, 20) })
+				cg = core.Catch(func() {
+					if d.SetPageMargins(20, 20, 20, 20) == nil {
+						sect.margins = true
+					}
+				})
 			case 1:
 				op = "SetPageOrientation"
-				cg = core.Catch(func() { d.SetPageOrientation(document.OrientationLandscape) })
+				cg = core.Catch(func() {
+					if d.SetPageOrientation(document.OrientationLandscape) == nil {
+						sect.landscape = true
+					}
+				})
 			case 2:
 				op = "SetPageSize"
-				cg = core.Catch(func() { d.SetPageSize(document.PageSizeA5) })
+				cg = core.Catch(func() {
+					if d.SetPageSize(document.PageSizeA5) == nil {
+						sect.a5 = true
+					}
+				})
 			case 3:
 				op = "AddHeader"
-				cg = core.Catch(func() { d.AddHeader(hfTypes[r.Intn(3)], "hdr") })
+				ht := hfTypes[r.Intn(3)]
+				cg = core.Catch(func() {
+					if d.AddHeader(ht, "hdr") == nil {
+						sect.hdr[string(ht)] = true
+					}
+				})
 			case 4:
 				op = "AddFooterWithPageNumber"
-				cg = core.Catch(func() { d.AddFooterWithPageNumber(hfTypes[r.Intn(3)], "ftr", true) })
+				ft := hfTypes[r.Intn(3)]
+				cg = core.Catch(func() {
+					if d.AddFooterWithPageNumber(ft, "ftr", true) == nil {
+						sect.ftr[string(ft)] = true
+					}
+				})
 			case 5:
 				op = "SetDifferentFirstPage"
 				cg = core.Catch(func() { d.SetDifferentFirstPage(r.Bool()) })
@@ -341,6 +364,10 @@ func c08Case(c *core.Ctx) *core.Result {
 			break
 		}
 		after := d.Body.Elements
+		if countSect(after) < countSect(before) {
+			// the section element itself was removed by index: its settings are gone with it, legitimately
+			sect = &c08Sect{hdr: map[string]bool{}, ftr: map[string]bool{}}
+		}
 		switch mode {
 		case "append", "maybe-noop":
 			bn, an := nonSect(before), nonSect(after)
@@ -411,7 +438,7 @@ func c08Case(c *core.Ctx) *core.Result {
 		checkViews(op)
 		// save at random points and at the end
 		if len(res.Findings) == 0 && (i == nOps-1 || r.Chance(1, 12)) {
-			c08CheckSaved(res, d, fail)
+			c08CheckSaved(res, d, fail, sect)
 		}
 	}
 	res.Nontrivial = len(kinds) >= 3 && res.Stats["calls"] >= 5
@@ -444,6 +471,51 @@ func idxClass(i, n int) string {
 	return "inner"
 }
 
+// c08CheckSectContent: "the section settings exactly once" means the one serialised w:sectPr carries everything
+// the settings calls established, wherever the in-memory element(s) sit.
+func c08CheckSectContent(res *core.Result, sp *opc.Node, led *c08Sect, fail func(key, format string, a ...interface{})) {
+	if led == nil {
+		return
+	}
+	res.Count("saved_section_settings_compared", 1)
+	near := func(s string, want float64) bool { v := atof(s); return v > want-2 && v < want+2 }
+	if led.margins {
+		m := sp.Child(opc.NsW, "pgMar")
+		if m == nil || !near(m.AttrW("top"), 1134) || !near(m.AttrW("left"), 1134) {
+			fail("saved/section-settings-lost/pgMar", "margins were set to 20 mm but the saved w:sectPr has %v", m != nil)
+		}
+	}
+	sz := sp.Child(opc.NsW, "pgSz")
+	if led.landscape && (sz == nil || sz.AttrW("orient") != "landscape") {
+		fail("saved/section-settings-lost/orient", "landscape was set but the saved w:pgSz does not say so")
+	}
+	if led.a5 {
+		ok := sz != nil && ((near(sz.AttrW("w"), 8391) && near(sz.AttrW("h"), 11906)) || (near(sz.AttrW("h"), 8391) && near(sz.AttrW("w"), 11906)))
+		if !ok {
+			fail("saved/section-settings-lost/pgSz", "page size A5 was set but the saved w:pgSz differs")
+		}
+	}
+	for _, kind := range []string{"default", "first", "even"} {
+		for _, hf := range []struct {
+			el  string
+			set map[string]bool
+		}{{"headerReference", led.hdr}, {"footerReference", led.ftr}} {
+			if !hf.set[kind] {
+				continue
+			}
+			found := false
+			for _, ref := range sp.ChildrenOf(opc.NsW, hf.el) {
+				if ref.AttrW("type") == kind {
+					found = true
+				}
+			}
+			if !found {
+				fail("saved/section-settings-lost/"+hf.el, "a %s of kind %s was added but the saved w:sectPr has no such reference", hf.el, kind)
+			}
+		}
+	}
+}
+
 func removeClass(op string) string {
 	if i := strings.Index(op, "("); i > 0 {
 		return op[:i] + "(" + op[i+1:len(op)-1] + ")"
@@ -452,7 +524,13 @@ func removeClass(op string) string {
 }
 
 // c08CheckSaved compares the children of w:body in the saved main part with the in-memory list.
-func c08CheckSaved(res *core.Result, d *document.Document, fail func(key, format string, a ...interface{})) {
+// c08Sect is the ledger of section settings the script made successfully (fixed values, see the settings calls).
+type c08Sect struct {
+	margins, landscape, a5 bool
+	hdr, ftr               map[string]bool
+}
+
+func c08CheckSaved(res *core.Result, d *document.Document, fail func(key, format string, a ...interface{}), led *c08Sect) {
 	var b []byte
 	var err error
 	if cg := core.Catch(func() { b, err = d.ToBytes() }); cg != nil {
@@ -481,6 +559,7 @@ func c08CheckSaved(res *core.Result, d *document.Document, fail func(key, format
 	for i, k := range body.Children {
 		if k.Is(opc.NsW, "sectPr") {
 			sect++
+			c08CheckSectContent(res, k, led, fail)
 			if i != len(body.Children)-1 {
 				fail("saved/sectPr-not-last", "w:sectPr is child %d of %d of w:body", i+1, len(body.Children))
 			}
